@@ -986,11 +986,16 @@ class C13(SimSpec):
         else:
             rs["rounds"] = [flags(), flags()] + ([flags()] if rng.random() < 0.3 else [])
             kind = 6
+        if i % 24 == 11:
+            # the scheduler does not answer while the round started by resubmit-jobs runs (all status queries of 1-2 rounds fail)
+            rs["rounds"] = [flags()]
+            rs["faults"] = {"squeue_fail": 1.0, "squeue_fail_budget": rng.choice([7, 7, 14]), "max_recoveries": 12}
+            kind = 7
         if kind in (1, 6) and rs["rounds"] and rng.random() < 0.6:
             # resubmit-jobs -s <edited copy of submitter_groups.json>: new limits and HPC parameters for the same groups
             rs["rounds"][0]["groups"] = scenario.changed_groups(rng, scen["groups"])
         scen["resubmit"] = rs
-        scen["resub_kind"] = ["plain", "plain", "with_missing", "refuse_busy", "refuse_idle", "fault_in_command", "repeated"][kind]
+        scen["resub_kind"] = ["plain", "plain", "with_missing", "refuse_busy", "refuse_idle", "fault_in_command", "repeated", "scheduler_outage"][kind]
         scen["obs_inside"] = kind in (0, 1)
         return scen
 
